@@ -101,14 +101,13 @@ def mk_array(ex, path, name, n=None, ascending=False, strict=False, floats=True,
         t.facts["cnt"] = lambda v, strict_, A=A, N=N: (cnt_lt if strict_ else cnt_le)(A, N, toR(v))
         return t
     items = [ex.new_real(f"{name}{k}") for k in range(n)]
+    if floats:
+        ex.ground_floats = getattr(ex, "ground_floats", []) + items
     t = T((Axis(name, n),), lambda i: sel(items, i), kind=kind, prov=prov or "fresh", items=items)
     if ascending:
         for a, b in zip(items, items[1:]):
             path.add(a < b if strict else a <= b)
         t.facts["sorted"] = True
-    if floats:
-        for a in items:
-            path.add(isfloat(a))
     t.facts["cnt"] = lambda v, strict_, items=items: ground_cnt(items, v, strict_)
     return t
 
@@ -433,8 +432,8 @@ def p_astype(ex, path, x, ty):
                 return v
             if isinstance(v, float):
                 return int(v)
-            r = toR(v)
-            return If(r >= 0, ToInt(r), -ToInt(-r))          # truncation toward zero
+            from .engine import int_of_real
+            return int_of_real(toR(v))                        # truncation toward zero
         res = lift(conv, x, kind="int")
         return res
     if ty is str:
@@ -618,8 +617,6 @@ def p_sort(ex, path, x, **kw):
         for w in vals + new.items:
             path.add(ground_cnt(new.items, w, True) == ground_cnt(vals, w, True))
             path.add(ground_cnt(new.items, w, False) == ground_cnt(vals, w, False))
-        for a in new.items:
-            path.add(isfloat(a))
         return new
     n = toI(x.axes[0].size)
     new = mk_array(ex, path, "sorted", n, ascending=True, floats=True)
@@ -662,9 +659,9 @@ def p_searchsorted(ex, path, a, v, side="left"):
     if isinstance(v, T):
         # instantiate the counting lemma at the generic element(s)
         res = lift(f, v, kind="int")
-        probe = [ex.new_int("x") for _ in res.axes]
-        res.elem(*probe)                       # forces the L1 instance for a generic position
-        res._probe = probe
+        if isinstance(res, T):
+            probe = [ex.new_int("x") for _ in res.axes]
+            res.elem(*probe)                   # forces the L1 instance for a generic position
         return res
     return f(v)
 
@@ -682,21 +679,22 @@ def p_nextafter(ex, path, x, d):
 
     def f(xv):
         xv = toR(xv)
-        if d == NINF:
-            r = nxt_dn(xv)
-            path.add(r < xv)
+        if d not in (NINF, INF):
+            raise Unsupported("nextafter direction")
+        down = d == NINF
+        r = (nxt_dn if down else nxt_up)(xv)
+        path.add(r < xv if down else r > xv)
+        if ex.ground:
+            # quantifier-free: the adjacency axiom instantiated over the finite set of named floats
+            for fl_ in getattr(ex, "ground_floats", []):
+                path.add(Implies(fl_ < xv, fl_ <= r) if down else Implies(fl_ > xv, fl_ >= r))
+            ex.ground_floats = getattr(ex, "ground_floats", []) + [r]
+        else:
             y = Real("y!na")
-            path.add(ForAll([y], Implies(And(isfloat(y), y < xv), y <= r), patterns=[isfloat(y)]))
+            path.add(ForAll([y], Implies(And(isfloat(y), (y < xv) if down else (y > xv)), (y <= r) if down else (y >= r)),
+                            patterns=[isfloat(y)]))
             path.add(isfloat(r))
-            return r
-        if d == INF:
-            r = nxt_up(xv)
-            path.add(r > xv)
-            y = Real("y!na")
-            path.add(ForAll([y], Implies(And(isfloat(y), y > xv), y >= r), patterns=[isfloat(y)]))
-            path.add(isfloat(r))
-            return r
-        raise Unsupported("nextafter direction")
+        return r
     if isinstance(x, T) and x.ndim >= 1:
         raise Unsupported("nextafter over a symbolic array (needs a handler)")
     return lift(f, x)
